@@ -3262,6 +3262,9 @@ def gen_conc(rng, chk, root):
                 oth = cr.objs[1 - h]
                 oids = [] if oth is None else [idnum(j.id) for j in oth.remote_jobs if j.was_sent]
                 op = gen_job(rng, chk, rng.choice(CONC_KINDS), GenState(sorted(set(ids + oids)), cr.r.env.server.skipped, []))
+                if op["job"].get("dup") and op["job"]["ext"]["id"] not in ids:
+                    # an identifier only the OTHER object's list holds: not a duplicate for the object that adds
+                    del op["job"]["dup"]
             elif what == "launch":
                 pos = rng.randint(0, unsent + 2)
                 outs = ["refuse" if i == pos else {"accept": rng.choice([0, 0, 1])} for i in range(unsent)]
